@@ -3,6 +3,7 @@ mod conv;
 mod driver;
 mod gen;
 mod refcodec;
+mod spec;
 
 use driver::*;
 use serde_json::{json, Value as Json};
@@ -34,7 +35,14 @@ fn main() {
         usage();
     }
     match args[1].as_str() {
-        "worker" => worker(&args[2..]),
+        "worker" => {
+            // generous stack for deep strategies; checks that probe stack use run their own threads
+            let a: Vec<String> = args[2..].to_vec();
+            let h = std::thread::Builder::new().stack_size(256 << 20).spawn(move || worker(&a)).unwrap();
+            if h.join().is_err() {
+                std::process::exit(101);
+            }
+        }
         "replay" => {
             if args.len() < 3 {
                 usage()
